@@ -133,8 +133,8 @@ theorem c10_fser_free (Mp : MapEnv) (NF JK : List String) : ∀ (f : FieldDecl) 
     simp only [fser, this]
   | .seqPos .deque items _ _, v, h => by
     simp only [mfreeD] at h
-    have : fserZip Mp NF JK items = fserZip noMappers NF JK items :=
-      funext fun xs => c10_fserZip_free Mp NF JK items xs h
+    have : fserZipRaw Mp NF JK items = fserZipRaw noMappers NF JK items :=
+      funext fun xs => c10_fserZipRaw_free Mp NF JK items xs h
     simp only [fser, this]
   | .tuplePos items _, v, h => by
     simp only [mfreeD] at h
